@@ -25,3 +25,13 @@ pub proof fn axiom_vec_len_bound<T>(v: &Vec<T>)
 pub proof fn axiom_vec_len_isize<T>(v: &Vec<T>)
     ensures v@.len() <= isize::MAX
 { }
+
+// R13 helpers: the sequence a `for` loop walks, as an indexable value.
+pub fn verif_as_slice<T>(v: &Vec<T>) -> (r: &[T])
+    ensures r@ == v@
+{ v.as_slice() }
+// `s.chars()` yields the chars of s in order (std); the model materialises them.
+#[verifier::external_body]
+pub fn verif_chars_vec(s: &str) -> (r: Vec<char>)
+    ensures r@ == s@
+{ s.chars().collect() }
